@@ -124,8 +124,25 @@ def gen_fit_once(rng, idx):
     a_, b_ = C.dyadic(rng, -2, 2, 3), C.dyadic(rng, -2, 2, 3)
     comb = [a_ * u + b_ * v for u, v in zip(ys, y2)]
     yz = [y + (1000.0 if w == 0 else 0.0) for y, w in zip(ys, ws)]
-    return {'f': 'fit', 'kind': 'well', 'poly': poly, 'nord': k, 'bkpt': b, 'xs': xs, 'ys': ys, 'ws': ws,
+    call = {'f': 'fit', 'kind': 'well', 'poly': poly, 'nord': k, 'bkpt': b, 'xs': xs, 'ys': ys, 'ws': ws,
             'extra': {'y2': y2, 'comb': comb, 'zw': yz}, 'ab': [a_, b_]}
+    # data that are not float64: float32 / integer ydata, float32 weights (all values exactly representable, so
+    # the certified optimum is the same problem); float32 abscissae make the basis itself single precision and are
+    # judged at single-precision tolerance by the direct checks only
+    t = (idx // 6) % 6
+    if t == 1 and not poly:
+        call['dtypes'] = {'y': 'float32'}
+    elif t == 2 and not poly:
+        call['ys'] = [float(round(4 * y)) for y in ys]
+        call['dtypes'] = {'y': rng.choice(['int64', 'int32'])}
+        call['extra']['comb'] = [a_ * u + b_ * v for u, v in zip(call['ys'], y2)]
+        call['extra']['zw'] = [y + (1000.0 if w == 0 else 0.0) for y, w in zip(call['ys'], ws)]
+    elif t == 4:
+        call['dtypes'] = {'w': 'float32'}
+    elif t == 5 and not poly:
+        call['dtypes'] = {'x': 'float32', 'y': 'float32'}
+        call['single_precision_x'] = True
+    return call
 
 
 def gen_ill(rng, idx):
@@ -214,7 +231,8 @@ def gen_chol(rng, idx):
         A[j + 1][j] = A[j][j + 1] = big
     elif t == 3:
         kind = 'nonfinite'
-        bad = (rng.randrange(bw), rng.randrange(n), rng.choice(['nan', 'inf', '-inf']))
+        # half of them in a sub-diagonal row (finite positive diagonal): still a non-finite A
+        bad = (rng.randrange(1, bw) if (bw >= 2 and idx % 2 == 0) else rng.randrange(bw), rng.randrange(n), rng.choice(['nan', 'inf', '-inf']))
     ab = [[exact_float(v) for v in row] for row in band_of(A, bw, n)]
     if bad:
         r, c_, v = bad
@@ -266,6 +284,14 @@ def correspond(ctx, proof_ok=True):
         if c['f'] == 'fit' and c['kind'] == 'well':
             if 'err' in r:
                 viol('C09:fit:well-supported:impl=%s' % r['err'], 'bspline.fit raised %s on a well-supported problem' % r['err'], c, r)
+                continue
+            if not r.get('finite', True):
+                viol('C09:fit:well-supported:non-finite', 'non-finite coefficients on a well-supported fit', c, r)
+                continue
+            if c.get('single_precision_x'):
+                # float32 abscissae: basis values are single precision by construction -> direct check at 1e-4 only
+                if r.get('status') != 0 or not close_vec(r['yfit'], r['yfit'], 0.0):
+                    viol('C09:fit:well-supported:float32-x:status=%s' % r.get('status'), 'float32 abscissae: status %s' % r.get('status'), c, r)
                 continue
             if 'alpha' not in r:
                 viol('C09:fit:well-supported:status=%s:no-solve' % r.get('status'),
